@@ -85,7 +85,7 @@ class PROP(Prop):
                         fr = cligen.frame(proto, tid, uid, mb.spec_req_pdu(req))
                         delay = rng.choice([0, 0, 50, 300])
                         if ci in idle and seq == 0:
-                            delay = 600000          # 600 ms of silence after connecting
+                            delay = 1500000         # 1.5 s of silence after connecting
                         plan.append("%d:%s" % (delay, fr.hex()))
                         reqs.append((tid if proto == "tcp" else 0, uid, req))
                     conns.append(",".join(plan))
@@ -189,8 +189,8 @@ class PROP(Prop):
                 return "connection %d received %s, its own replies in order are %s" % (ci, f["recv"][:80], want.hex()[:80])
             if f["addr"] != "1":
                 return "connection %d: service factory saw its peer address %s times" % (ci, f["addr"])
-            if want and ci not in c.meta.get("idle", []) and c.meta.get("idle") and int(f.get("ms", "0")) > 350:
-                return "connection %d got its last reply after %s ms while other connections sat idle for 600 ms: it was held up by them" % (ci, f["ms"])
+            if want and ci not in c.meta.get("idle", []) and c.meta.get("idle") and int(f.get("ms", "0")) > 1200:
+                return "connection %d got its last reply after %s ms while other connections sat idle for 1500 ms: it was held up by them" % (ci, f["ms"])
         return None
 
     def nontrivial(self, c):
